@@ -182,13 +182,13 @@ theorem serve_bill_inv (q : Req) (b : Bill) (h : (serve q).bill = some b) :
 /-! ## The log file under concurrent writers: the ownership invariant -/
 
 /-- Writer states in which a pooled buffer is held. -/
-def Holding (p : Nat) : Prop := (1 ≤ p ∧ p ≤ 4) ∨ p = 6
+def Holding (p : Nat) : Prop := (1 ≤ p ∧ p ≤ 4) ∨ p = 6 ∨ p = 8
 
 structure Inv (J : Jobs) (s : FS) : Prop where
   file : s.file = (s.order.map (lineOf J)).flatten
-  holdLt : ∀ i, (1 ≤ s.pc i ∧ s.pc i ≤ 4) ∨ s.pc i = 6 → s.hold i < s.nbufs
-  holdNF : ∀ i, (1 ≤ s.pc i ∧ s.pc i ≤ 4) ∨ s.pc i = 6 → s.hold i ∉ s.free
-  inj : ∀ i j, i ≠ j → (1 ≤ s.pc i ∧ s.pc i ≤ 4) ∨ s.pc i = 6 → (1 ≤ s.pc j ∧ s.pc j ≤ 4) ∨ s.pc j = 6 →
+  holdLt : ∀ i, ((1 ≤ s.pc i ∧ s.pc i ≤ 4) ∨ s.pc i = 6 ∨ s.pc i = 8) → s.hold i < s.nbufs
+  holdNF : ∀ i, ((1 ≤ s.pc i ∧ s.pc i ≤ 4) ∨ s.pc i = 6 ∨ s.pc i = 8) → s.hold i ∉ s.free
+  inj : ∀ i j, i ≠ j → ((1 ≤ s.pc i ∧ s.pc i ≤ 4) ∨ s.pc i = 6 ∨ s.pc i = 8) → ((1 ≤ s.pc j ∧ s.pc j ≤ 4) ∨ s.pc j = 6 ∨ s.pc j = 8) →
     s.hold i ≠ s.hold j
   b1 : ∀ i, s.pc i = 1 → (s.bufs (s.hold i)).bytes = []
   b2 : ∀ i, s.pc i = 2 → (s.bufs (s.hold i)).bytes = [] ∧ (s.bufs (s.hold i)).ent = J i
@@ -256,9 +256,20 @@ theorem inv_step (J : Jobs) (s : FS) (i : Nat) (c : Option Nat) (h : Inv J s) : 
       obtain ⟨hfile, hlt, hnf, hinj, hb1, hb2, hb3, hflt, hfnd, hord, hordnd, hst⟩ := h
       have := hb3 i hpc
       have hni : i ∉ s.order := by rw [hord]; omega
+      split
+      · constructor
+        all_goals simp only [put]
+        all_goals grind
+      · constructor
+        all_goals simp only [put]
+        · simp [hfile, this]
+        all_goals grind
+    · rename_i hpc
+      obtain ⟨hfile, hlt, hnf, hinj, hb1, hb2, hb3, hflt, hfnd, hord, hordnd, hst⟩ := h
+      have := hnf i (by omega)
+      have := hlt i (by omega)
       constructor
       all_goals simp only [put]
-      · simp [hfile, this]
       all_goals grind
     · rename_i hpc
       obtain ⟨hfile, hlt, hnf, hinj, hb1, hb2, hb3, hflt, hfnd, hord, hordnd, hst⟩ := h
@@ -565,6 +576,31 @@ theorem fieldsOf_clean (e : Entry) (rn : Nat) : ∀ f ∈ fieldsOf e rn, KeyClea
 theorem fieldsOf_ne (e : Entry) (rn : Nat) : fieldsOf e rn ≠ [] := by
   unfold fieldsOf
   simp
+
+/-! ## Production wiring -/
+
+theorem findDevice_ok_iff (sup : Bool) (l : Lookup) (p : Prof) (d : Str) :
+    findDevice sup l = .ok p d ↔ sup = true ∧ l = .found p d false true := by
+  unfold findDevice
+  cases sup <;> cases l <;> simp
+  rename_i p' d' del au
+  cases del <;> cases au <;> simp
+
+theorem wiredDevID_isSome (g : WGroup) (sv : WServer) (id : Ident) :
+    (wiredDevID g sv id).isSome = true ↔
+      (sv.proto = 3 ∨ sv.proto = 4 ∨ sv.proto = 5) ∧ ∃ lab dom, id.sni = some (lab, dom) ∧ dom ∈ g.domains := by
+  unfold wiredDevID
+  cases hs : id.sni with
+  | none => simp
+  | some pr =>
+    obtain ⟨lab, dom⟩ := pr
+    by_cases h : (sv.proto = 3 ∨ sv.proto = 4 ∨ sv.proto = 5) ∧ dom ∈ g.domains
+    · simp only [h, and_self, ↓reduceIte, Option.isSome_some, true_iff]
+      exact ⟨trivial, lab, dom, rfl, h.2⟩
+    · simp only [h, ↓reduceIte, Option.isSome_none, Bool.false_eq_true, false_iff]
+      rintro ⟨h1, lab', dom', he, hm⟩
+      cases he
+      exact h ⟨h1, hm⟩
 
 end Agd.Record
 
